@@ -71,6 +71,11 @@ def gen_case(rng, tier, index):
         ops = [["len", 0, 0, 0]] + [["get_abs", i, 0, 0] for i in probes if -n <= i < n] + [["it_new", 0, 0, 0], ["it_next", 0, 0, 0]]
         return {"content": content, "variant": VARIANTS[(index // 7) % len(VARIANTS)], "index": "built", "index_seed": 0,
                 "ops": ops, "big": True}
+    if index % 600 == 8 or (tier == "thorough" and index % 150 == 8):
+        # one line of 17 Mi characters (a minified document, a base64 blob) between short ones
+        content = "first\n" + "z" * (17 * 2 ** 20 + rng.randrange(3)) + "\nlast\n"
+        ops = [["len", 0, 0, 0], ["get_abs", 1, 0, 0], ["get_abs", 2, 0, 0], ["get_abs", 0, 0, 0], ["get_abs", -2, 0, 0], ["list", 0, 0, 0]]
+        return {"content": content, "variant": VARIANTS[(index // 8) % len(VARIANTS)], "index": "built", "index_seed": 0, "ops": ops, "big": True}
     if index % 60 == 9:
         # files whose size is an exact multiple of the usual buffer / chunk sizes (4 KiB, 8 KiB, 64 KiB, 128 KiB), with and
         # without the final terminator: 16-byte lines
@@ -176,10 +181,20 @@ def open_variant(case, path, idx_path):
     if kind == "built":
         arg = None
     elif kind == "file":
+        # the index read from a file may be a selection or a permutation as well
+        if case["index_seed"] % 3 == 1:
+            sel = [i for i in sel if rng.random() < 0.6]
+        elif case["index_seed"] % 3 == 2:
+            rng.shuffle(sel)
         with open(idx_path, "w") as f:
             for i in sel:
                 f.write(f"{offs[i]}\n")
         arg = idx_path
+        if case["index_seed"] % 2:
+            # the index file is older than the data file (the data file was copied / touched / restored from a backup after the
+            # index had been written): the index still is what the caller asked for
+            st_ = os.stat(path)
+            os.utime(idx_path, (st_.st_atime - 3600, st_.st_mtime - 3600))
     else:
         arg = [offs[i] for i in sel]
     ref_all = reference_lines(content)
